@@ -81,7 +81,8 @@ impl Header {
             + self.version.header_len_bytes_len()
             + fmt_dict.len();
         let rem = len % ALIGN;
-        let pad_len = if rem == 0 { 0 } else { ALIGN - rem };
+        // The header must end in a newline, so at least one byte of padding is always required
+        let pad_len = ALIGN - rem;
         assert_eq!((len + pad_len) % ALIGN, 0);
 
         let header_len = fmt_dict.len() + pad_len;
